@@ -1569,3 +1569,260 @@ for _q, _shape, _attr in (
     M.contract(P_I + _q + '.symbol_usages', params=dict(self=_shape), ghosts=dict(attr=Const(_attr)),
                ensures={'the references of its argument; runs nothing': lambda self, attr, result, trace:
                list(result) == _refs(getattr(self, attr)) and trace == []}, inline=True, raises_only=())
+
+
+# ====================================================================================== 2b: further instruction parts
+# `dir-contents` (its files-matcher assertion part) and `stdout / stderr -from PROGRAM` (the constructor of the actual
+# file): same claims as section 2.
+from exactly_lib.impls.instructions.assert_.contents_of_dir import impl_utils as dir_contents_impl
+from exactly_lib.impls.instructions.assert_.process_output.impl import out_err_file
+from exactly_lib.util.process_execution.process_output_files import ProcOutputFile
+
+
+def _message_of(trace):
+    returned = [e for e in trace if e[0] == 'validate-pre:returned']
+    return returned[-1][2] if returned else None
+
+
+# ----- dir-contents PATH : FILES-MATCHER  -- the part that holds the arguments that can be invalid
+
+def harness_dir_contents_part_validate_pre_sds(model_constructor, files_matcher, environment):
+    """contents_of_dir.impl_utils.FilesMatcherAsDirContentsAssertionPart (what the parser of `dir-contents` makes of the
+    parsed model options and FILES-MATCHER): its validator, asked before the sandbox exists"""
+    part = dir_contents_impl.FilesMatcherAsDirContentsAssertionPart(model_constructor, files_matcher)
+    return part.validator.validate_pre_sds_if_applicable(environment)
+
+
+M.contract(HARNESS + 'harness_dir_contents_part_validate_pre_sds',
+           params=dict(model_constructor=Iface(SdvOfDdvWithValidatorI), files_matcher=Iface(SdvOfDdvWithValidatorI),
+                       environment=Iface(PathEnvI)), returns=Opt(Any_),
+           ensures={
+               'the model options (recursion limits: integers) and then -- iff they have nothing to say -- the FILES '
+               'MATCHER are validated: both as resolved with the symbols of the environment, on its home directories':
+                   lambda model_constructor, files_matcher, environment, trace:
+                   resolutions(trace) == [('resolve-arg', model_constructor, (environment.symbols,)),
+                                          ('resolve-arg', files_matcher, (environment.symbols,))]
+                   and validated(trace) == [(resolved_arg(trace, model_constructor).validator, (environment.hds,))]
+                   + ([] if [e for e in trace if e[0] == 'validate-pre:returned'][0][2] is not None else
+                      [(resolved_arg(trace, files_matcher).validator, (environment.hds,))]),
+               'the first error is the result': lambda result, trace: result is _message_of(trace),
+               'nothing else: no check, no effect': lambda trace: quiet(trace) and no_post_sds_validation(trace),
+           },
+           raises={ArbitraryException: {}}, raises_only=())
+
+
+# ----- stdout / stderr -from PROGRAM: the file to check is the output of a program
+
+def harness_output_of_program_validate_pre_sds(checked_output, program, environment):
+    """out_err_file._ComparisonActualFileConstructorForProgram (what Parser._parse_program makes of the parsed
+    PROGRAM): its validator, asked before the sandbox exists"""
+    constructor = out_err_file._ComparisonActualFileConstructorForProgram(checked_output, program)
+    return constructor.validator.validate_pre_sds_if_applicable(environment)
+
+
+M.contract(HARNESS + 'harness_output_of_program_validate_pre_sds',
+           params=dict(checked_output=EnumOf(ProcOutputFile), program=Iface(SdvOfDdvWithValidatorI),
+                       environment=Iface(PathEnvI)), returns=Opt(Any_),
+           ensures={
+               'the PROGRAM is validated: as resolved with the symbols of the environment, on its home directories':
+                   lambda program, environment, trace:
+                   resolutions(trace) == [('resolve-arg', program, (environment.symbols,))]
+                   and validated(trace) == [(resolved_arg(trace, program).validator, (environment.hds,))],
+               'its error is the result': lambda result, trace: result is _message_of(trace),
+               'nothing else: the program is not started, no effect': lambda trace:
+               quiet(trace) and no_post_sds_validation(trace),
+           },
+           raises={ArbitraryException: {}}, raises_only=())
+
+
+class ProgramTokenParserI(Interface):
+    methods = {'parse_from_token_parser': Method(returns=Iface(SdvOfDdvWithValidatorI),
+                                                 may_raise=(_mk_arbitrary,), event='parse-arg')}
+
+
+M.contract('exactly_lib.impls.instructions.assert_.process_output.impl.out_err_file:Parser._parse_program',
+           params=dict(self=Inst(out_err_file.Parser, _checked_file=EnumOf(ProcOutputFile), _checked_file_name=Str,
+                                 _default=Any_, _PROGRAM_PARSER=Iface(ProgramTokenParserI)), parser=Any_),
+           ensures={'the constructor for the output -- of the channel the instruction is about -- of the program that '
+                    'was parsed': lambda self, result, trace:
+           type(result) is out_err_file._ComparisonActualFileConstructorForProgram
+           and result._program is outcome_event(trace, 'parse-arg')[1]
+           and result._checked_output is self._checked_file and steps(trace) == [] and quiet(trace)},
+           raises={ArbitraryException: {}}, raises_only=())
+
+
+# ----- exists: main -- looks at the path (stat), applies the file matcher; a HardErrorException is a HARD_ERROR result
+from exactly_lib.util.logic_types import ExpectationType
+
+
+class FileMatcherPrimitiveI(Interface):
+    methods = {'matches_w_trace': Method(returns=Iface(MatchingResultI), may_raise=c01.RAISES, event='matcher-apply'),
+               'structure': Method(returns=Any_)}
+
+
+class FileMatcherAdvI(Interface):
+    methods = {'primitive': Method(returns=Iface(FileMatcherPrimitiveI), may_raise=c01.RAISES, event='to-primitive')}
+
+
+class FileMatcherDdvI(Interface):
+    attrs = {'validator': Iface(ValidatorI)}
+    methods = {'value_of_any_dependency': Method(returns=Iface(FileMatcherAdvI), may_raise=c01.RAISES, event='to-adv'),
+               'structure': Method(returns=Any_)}
+
+
+class FileMatcherSdvI(Interface):
+    attrs = {'references': FixedList(Any_)}
+    methods = {'resolve': Method(returns=Iface(FileMatcherDdvI), may_raise=(_mk_arbitrary,), event='resolve-arg')}
+
+
+class PathDdvOfExistsI(Interface):
+    methods = {'value_of_any_dependency__d': Method(returns=Iface(DescribedPathI), may_raise=(_mk_arbitrary,),
+                                                    event='path-value')}
+
+
+class PathSdvOfExistsI(Interface):
+    attrs = {'references': FixedList(Any_)}
+    methods = {'resolve': Method(returns=Iface(PathDdvOfExistsI), may_raise=(_mk_arbitrary,), event='resolve-path')}
+
+
+M.contract(P_I + 'assert_.existence_of_file:_Instruction.main',
+           params=dict(self=Inst(existence_of_file._Instruction, _expectation_type=EnumOf(ExpectationType),
+                                 _path_sdv=Iface(PathSdvOfExistsI), _file_matcher=Opt(Iface(FileMatcherSdvI)),
+                                 _symbol_usages=Any_),
+                       environment=Iface(PostSdsInstructionEnvI), settings=Any_, os_services=Any_), returns=PFH,
+           ensures={
+               'looks at the path as resolved with the symbols and directories of the environment -- exactly once; '
+               'changes nothing': lambda self, environment, trace:
+               resolutions(trace)[0] == ('resolve-path', self._path_sdv, (environment.symbols,))
+               and [e[2] for e in trace if e[0] == 'path-value'] == [(environment.tcds,)]
+               and stats(trace) == [outcome_event(trace, 'path-value')[1].primitive]
+               and no_effect([e for e in trace if e[0] != 'matcher-apply']) and steps(trace)[:0] == [],
+               'the file matcher is applied iff there is one and the path exists': lambda self, trace:
+               len([e for e in trace if e[0] == 'matcher-apply'])
+               == (0 if self._file_matcher is None or [e for e in trace if e[0] == 'stat:raised']
+                   or [e for e in trace if e[0] in ('to-adv:raised', 'to-primitive:raised')] else 1),
+               'with file matcher: a missing path PASSes iff negated; an existing one iff the matcher matches (does not '
+               'match, when negated); a HardErrorException is HARD_ERROR with its message': lambda self, result, trace:
+               self._file_matcher is None
+               or ((result.status is PFH_ENUM.HARD_ERROR
+                    and result.failure_message is [e[2] for e in trace if e[0].endswith(':raised')
+                                                   and e[0] != 'stat:raised'][0].error)
+                   if [e for e in trace if e[0].endswith(':raised') and e[0] != 'stat:raised'] else
+                   ((result.status is PFH_ENUM.PASS) == (self._expectation_type is ExpectationType.NEGATIVE))
+                   if [e for e in trace if e[0] == 'stat:raised'] else
+                   ((result.status is PFH_ENUM.PASS)
+                    == (outcome_event(trace, 'matcher-apply')[1].value
+                        == (self._expectation_type is ExpectationType.POSITIVE)))),
+               'without file matcher: PASS iff the path exists (does not exist, when negated)': lambda self, result, trace:
+               self._file_matcher is not None
+               or (result.status is PFH_ENUM.PASS)
+               == ((not [e for e in trace if e[0] == 'stat:raised'])
+                   == (self._expectation_type is ExpectationType.POSITIVE)),
+           },
+           raises={ArbitraryException: {}}, raises_only=())      # HardErrorException => HARD_ERROR result
+
+
+# ----- the embryo parsers of cd and timeout (what is parsed is what the embryo holds; a token error is a syntax error)
+from exactly_lib.impls.instructions.multi_phase.timeout import parse as _timeout_parse
+from exactly_lib.section_document.element_parsers.token_stream import TokenSyntaxError as _TokenSyntaxError
+
+
+def _mk_token_syntax_error(interp, o):
+    return _TokenSyntaxError('token syntax error')
+
+
+class TimeoutTokensI(Interface):
+    methods = {'consume_mandatory_keyword': Method(may_raise=(_mk_token_syntax_error, _mk_arbitrary), event='keyword'),
+               'has_valid_head_matching__consume': Method(returns=Bool, may_raise=(_mk_token_syntax_error,),
+                                                          event='none-token?'),
+               'report_superfluous_arguments_if_not_at_eol': Method(may_raise=(_mk_token_syntax_error, _mk_arbitrary),
+                                                                    event='at-eol')}
+
+
+class IntegerTokenParserI(Interface):
+    methods = {'parse': Method(returns=Iface(SdvOfDdvWithValidatorMethodI),
+                               may_raise=(_mk_token_syntax_error, _mk_arbitrary), event='parse-arg')}
+
+
+M.contract(P_I + 'multi_phase.change_dir:EmbryoParser._parse_from_tokens',
+           params=dict(self=Inst(change_dir.EmbryoParser, is_after_act_phase=Bool, _path_parser=Iface(TokenPathParserI)),
+                       token_parser=Iface(TokensI)),
+           ensures={'the embryo of the path that was parsed; superfluous arguments are reported; nothing is run':
+                    lambda result, trace:
+                    type(result) is change_dir.InstructionEmbryo
+                    and result.destination is outcome_event(trace, 'parse-path')[1]
+                    and len([e for e in trace if e[0] == 'at-eol']) == 1 and steps(trace) == [] and quiet(trace)},
+           raises={ArbitraryException: {}}, raises_only=())
+
+M.contract(P_I + 'multi_phase.timeout.parse:EmbryoParser._parse_from_tokens',
+           params=dict(self=Inst(_timeout_parse.EmbryoParser, _int_parser=Iface(IntegerTokenParserI),
+                                 _none_token_matcher=Any_), token_parser=Iface(TimeoutTokensI)),
+           ensures={'the embryo of `none` or of the INTEGER that was parsed; superfluous arguments are reported; '
+                    'nothing is run': lambda result, trace:
+                    type(result) is timeout_impl.TheInstructionEmbryo
+                    and (result._value is None and not [e for e in trace if e[0] == 'parse-arg']
+                         if outcome_event(trace, 'none-token?')[1] else
+                         result._value is outcome_event(trace, 'parse-arg')[1])
+                    and len([e for e in trace if e[0] == 'at-eol']) == 1 and steps(trace) == [] and quiet(trace)},
+           raises={_InvalidArgument: {'ensures': lambda trace:      # bad quoting => a syntax error of the instruction
+                   isinstance([e[2] for e in trace if e[0].endswith(':raised')][0], _TokenSyntaxError)},
+                   ArbitraryException: {}},
+           raises_only=())
+
+
+# ====================================================================================== 4: the default instruction set
+# The instruction set that `exactly` runs with (cli_default ... default_instructions_setup.INSTRUCTIONS_SETUP, read
+# from the real module): every instruction of [setup], [before-assert], [assert], [cleanup] is wired through the
+# adapters of section 1 to the embryo / instruction classes of section 2 -- the per-phase wrapper modules
+# (setup/new_file.py, ...) only pick a parts parser.  One obligation per (phase, instruction name).
+
+@M.check('default-instruction-set')
+def _default_instruction_set(ctx):
+    from exactly_lib.cli_default.program_modes.test_case import default_instructions_setup
+    from exactly_lib.impls.instructions.multi_phase.timeout import parse as timeout_parse
+    from exactly_lib.impls.instructions.multi_phase.environ import parse as env_parse
+    from exactly_lib.impls.instructions.multi_phase import run as run_module
+    from exactly_lib.impls.instructions.assert_.process_output import exit_code as exit_code_parser
+    from exactly_lib.impls.instructions.assert_.contents_of_dir import parser as dir_contents_parser
+    s = default_instructions_setup.INSTRUCTIONS_SETUP
+    # embryo parsers whose embryo is under contract in section 2 (harness / parser contract)
+    embryo_parsers = {
+        'file': new_file.EmbryoParser, 'dir': new_dir.EmbryoParser, 'copy': copy_instr.EmbryoParser,
+        'cd': change_dir.EmbryoParser, 'def': _def_parser.EmbryoParser, 'timeout': timeout_parse.EmbryoParser,
+        'env': env_parse.EmbryoParser, '%': _exe_program.InstructionEmbryoParser,
+        '$': _exe_program.InstructionEmbryoParser,
+    }
+    # instructions with a parser of their own (the instruction class / parser of section 2)
+    own_parsers = {
+        'stdin': stdin_instr.Parser, 'exists': existence_of_file.Parser, 'exit-code': exit_code_parser.Parser,
+        'stdout': _fc_parse_instruction.Parser, 'stderr': _fc_parse_instruction.Parser,
+        'contents': _fc_parse_instruction.Parser,
+        'dir-contents': dir_contents_parser.Parser,      # (only its files-matcher part is under contract: 2b)
+    }
+    phases = (('setup', s.setup_instruction_set, setup_fp.Parser),
+              ('before-assert', s.before_assert_instruction_set, before_assert_fp.Parser),
+              ('assert', s.assert_instruction_set, assert_fp.Parser),
+              ('cleanup', s.cleanup_instruction_set, cleanup_fp.Parser))
+    n = 0
+    for phase, instructions, from_parts_parser in phases:
+        for name, setup in instructions.items():
+            n += 1
+            parser = setup._parser
+            how = type(parser).__module__ + '.' + type(parser).__name__
+            if name in own_parsers:
+                ok = type(parser) is own_parsers[name]
+            elif name == 'run':
+                # run: the phase's adapter over multi_phase/run.py's own parts parser (embryo class: `%` / `$`'s; C10)
+                ok = type(parser) is from_parts_parser \
+                    and type(parser.instruction_parts_parser) is run_module._InstructionPartsParser
+            else:
+                parts_parser = getattr(parser, 'instruction_parts_parser', None)
+                ok = name in embryo_parsers and type(parser) is from_parts_parser \
+                    and type(parts_parser) is ipu.PartsParserFromEmbryoParser \
+                    and type(parts_parser.embryo_parser) is embryo_parsers[name]
+                how += ' <- ' + type(parts_parser).__name__ + ' <- ' + \
+                    type(getattr(parts_parser, 'embryo_parser', None)).__name__
+            ctx.obligation('[%s] %s: built through the adapters and classes under contract' % (phase, name), ok,
+                           backend='enumeration', detail={'parser': how})
+    ctx.obligation('the instruction set was found (47 instructions in the four phases)', n == 47,
+                   backend='enumeration', detail={'instructions': n})
